@@ -16,7 +16,7 @@ class C11(WigBedProp):
             "1..16, current-thread / multi-thread runtime, channel size {0,1,100}, in-memory / temp-file buffering, iterator / "
             "file / parallel source — each under several seeded delay schedules injected at the pipeline's hand-off points "
             "(delay_point hooks); all byte images of a group must be identical to the reference (single thread, no delays). "
-            "Converters: bigwigtobedgraph / bigbedtobed -t N vs -t 1. Non-trivial = a configuration with ≥ 2 threads and a "
+            "Plus 120 small text inputs (2–7 chromosomes of 1–3 lines whose lengths differ by 0, 1 or 2 bytes between neighbours) written from the serial and from the per-chromosome-parallel source. Converters: bigwigtobedgraph / bigbedtobed -t N vs -t 1. Non-trivial = a configuration with ≥ 2 threads and a "
             "non-zero delay schedule on an input with ≥ 2 chromosomes")
     removable = ()
 
@@ -87,6 +87,37 @@ class C11(WigBedProp):
                 cid = f"g{g}c{ci}"
                 self.groups.setdefault(g, []).append(cid)
                 out.append(CaseT(cid, "bed" if bed else "wig", [], [bbgen.opt_line(o)] + body, t))
+        # serial versus per-chromosome-parallel PARSING on many small text inputs whose line lengths vary byte by byte (the
+        # parallel source finds the chromosome runs by bisection over byte offsets; which line a probe lands on depends on them)
+        for g in range(600 if tier == "thorough" else 120):
+            r = rng.fork(f"small{g}")
+            bed = r.chance(1, 2)
+            nch = r.range(2, 7)
+            tight = g % 4 != 0
+            # tight: names of one length and coordinates of 1–3 digits, so neighbouring lines differ by 0, 1 or 2 bytes
+            names = [f"c{i}" for i in sorted(r.below(10) for _ in range(20))[::3][:nch]] if tight else bbgen.pick_chroms(r, nch)
+            names = sorted(set(names))
+            sizes, data = {}, {}
+            for nm in names:
+                sizes[nm] = 2000000
+                pos, items = (r.choice([0, 3, 7, 10, 42, 99, 100]) if tight else r.choice([0, 3, 10, 99, 100, 1000, 99999])), []
+                for _ in range(r.choice([1, 1, 1, 2, 3])):
+                    ln = r.choice([1, 5, 9, 10, 90] if tight else [1, 5, 9, 10, 90, 100, 1000])
+                    items.append((pos, pos + ln, r.choice(["", "n", "nm1\t7"])) if bed else (pos, pos + ln, bbgen.f32bits(float(r.choice([1, 2, 10, 25, 100])))))
+                    pos += ln + r.choice([0, 1, 9, 10, 900])
+                data[nm] = items
+            body = bbgen.bed_lines(names, sizes, data) if bed else bbgen.wig_lines(names, sizes, data)
+            fmt = {"compress": r.choice([0, 1]), "ips": r.choice([1, 2, 1024]), "bs": r.choice([2, 256]), "zooms": r.choice(["10,40", "none"]), "pass": r.choice([1, 2])}
+            for ci, cfg in enumerate(({"threads": 1, "rt": "ct", "chan": 0, "inmem": 0, "src": "iter", "delay": 0},
+                                      {"threads": r.choice([1, 2, 4]), "rt": "mt", "chan": r.choice([0, 100]), "inmem": r.choice([0, 1]), "src": "parix", "delay": 0})):   # parix: the chromosome index comes from the real index_chroms
+                o = dict(fmt)
+                o.update(cfg)
+                o["sort"] = "all"
+                o["keep"] = 0
+                cid = f"s{g}c{ci}"
+                self.groups.setdefault(f"s{g}", []).append(cid)
+                out.append(CaseT(cid, "bed" if bed else "wig", [], [bbgen.opt_line(o)] + body,
+                                 {"bed" if bed else "wig", f"src={cfg['src']}", "small_text_input", f"pass={fmt['pass']}"}))
         return out
 
     def nontrivial(self, case, il):
